@@ -372,7 +372,7 @@ def norm_cond(disc, kind, vals):
             if k == 'option':
                 return 1 - v if v in (0, 1) else v + 100
             return v
-        return inner, kind, tuple(m(v) for v in vals)
+        return norm_cond(inner, kind, tuple(m(v) for v in vals))
     return disc, kind, vals
 
 
